@@ -144,6 +144,8 @@ func run(c *lib.Ctx) error {
 	modes := []string{"number", "tlnr", "tlt"}
 	starts := []int64{0, 0, 30, 1600000000}
 	snrs := []int64{-1, -1, 0, 1, 7}
+	tsbds := []int64{-1, -1, -1, 0, 1, 60, 3600}
+	pairs := lib.NewPairCover()
 	var terms []string
 	var ins []c01in
 	var obs []lib.SegObs
@@ -181,8 +183,34 @@ func run(c *lib.Ctx) error {
 				N := int64(len(r.Segs))
 				var cfgs []lib.TLCfg
 				cfgs = append(cfgs, lib.TLCfg{Snr: -1, Tsbd: -1, Mode: "number"}, lib.TLCfg{Snr: -1, Tsbd: -1, Mode: "tlt"}, lib.TLCfg{Snr: -1, Tsbd: -1, Mode: "tlnr"})
+				segMSr := int64(1)
+				if N > 0 && r.Timescale > 0 {
+					segMSr = r.Duration() * 1000 / r.Timescale / N
+				}
 				for k := 0; k < nCfg; k++ {
-					cfgs = append(cfgs, lib.TLCfg{StartS: starts[rng.Intn(len(starts))], Snr: snrs[rng.Intn(len(snrs))], Tsbd: -1, Mode: modes[rng.Intn(3)]})
+					// candidates over all configuration families (the served content must not depend on the time-shift
+					// buffer or the availabilityTimeOffset); the one covering most new value pairs for this track kind
+					var cands []lib.TLCfg
+					for q := 0; q < 8; q++ {
+						cand := lib.TLCfg{StartS: starts[rng.Intn(len(starts))], Snr: snrs[rng.Intn(len(snrs))], Tsbd: tsbds[rng.Intn(len(tsbds))], Mode: modes[rng.Intn(3)]}
+						switch rng.Intn(7) {
+						case 0:
+							cand.AtoMS = -1
+						case 1:
+							cand.AtoMS = segMSr / 4
+						case 2:
+							cand.AtoMS = segMSr + 500
+						case 3:
+							if segMSr > 1 {
+								cand.AtoMS = 1 + rng.Int63n(segMSr-1)
+							}
+						}
+						if r.Kind == "image" {
+							cand.Mode = "number"
+						}
+						cands = append(cands, cand)
+					}
+					cfgs = append(cfgs, pairs.Pick(r.Kind, segMSr, cands))
 				}
 				for _, cfg := range cfgs {
 					// segment indices: three wraps from the start, around 2^32 ticks, far from the epoch
@@ -215,6 +243,9 @@ func run(c *lib.Ctx) error {
 							segID = r.LoopS(n)
 						}
 						now := availMS(r, cfg, n) + int64(rng.Intn(2000))
+						if now < cfg.StartS*1000 { // an offset larger than the segment: nothing is available before the start
+							now = cfg.StartS*1000 + int64(rng.Intn(500))
+						}
 						in := c01in{Asset: a.Path, Rep: r.ID, Cfg: cfg, N: n, SegID: segID, NowMS: now, FirstStart: r.Segs[0].Start}
 						in.URL = lib.SegURL(a, cfg, r, segID, now)
 						o := lib.FetchSeg(ls, a, cfg, r, segID, now)
@@ -266,6 +297,9 @@ func run(c *lib.Ctx) error {
 							cn, ct := cfg, cfg
 							cn.Mode, ct.Mode = "tlnr", "tlt"
 							now := availMS(r, cfg, n) + 100
+							if now < cfg.StartS*1000 {
+								now = cfg.StartS*1000 + 100
+							}
 							on := lib.FetchSeg(ls, a, cn, r, cfg.EffSnr()+n, now)
 							ot := lib.FetchSeg(ls, a, ct, r, r.LoopS(n), now)
 							c.Count("number-vs-time")
@@ -316,7 +350,8 @@ func run(c *lib.Ctx) error {
 	runAssets("g", gls, gAssets, layouts)
 	c.Res.Evaluations = len(ins)
 	c.Res.DistinctNontrivial = len(distinct)
-	c.Res.Rule = "bundled assets and generated layouts (catalogue + random: N=1..7 segments; uniform, alternating, irregular; timescales 1000..90000 incl. 1001-based; $Number$ and $Time$ VoD manifests) (bundled: N=1,2,4 segments; uniform, alternating 4s/8s, 2.002s; timescales 1,1000,12800,15360,30000,90000) x non-audio representations (video, stpp text, stpp image, thumbnails) x {Number, Timeline-Number, Timeline-Time} x start in {0,30,1.6e9} x startNumber in {unset,0,1,7}; segment indices over 3 loop wraps from stream start, around 2^32 ticks and ~1.7e12 ms from the epoch (64-bit tfdt); distinct = distinct (asset, rep, config, index) answered 200"
+	c.Res.Notes = append(c.Res.Notes, pairs.Summary())
+	c.Res.Rule = "bundled assets and generated layouts (catalogue + random: N=1..7 segments; uniform, alternating, irregular; timescales 1000..90000 incl. 1001-based; $Number$ and $Time$ VoD manifests) (bundled: N=1,2,4 segments; uniform, alternating 4s/8s, 2.002s; timescales 1,1000,12800,15360,30000,90000) x non-audio representations (video, stpp text, stpp image, thumbnails) x {Number, Timeline-Number, Timeline-Time} x start in {0,30,1.6e9} x startNumber in {unset,0,1,7} x tsbd in {unset,0,1,60,3600} x availabilityTimeOffset in {0, fractions of a segment, > segment, inf} (configurations chosen for pairwise coverage per track kind); segment indices over 3 loop wraps from stream start, around 2^32 ticks and ~1.7e12 ms from the epoch (64-bit tfdt); distinct = distinct (asset, rep, config, index) answered 200"
 	for i := 0; i < 3 && i < len(ins); i++ {
 		k := (i * 7919) % len(ins)
 		c.Sample(map[string]any{"request": ins[k].URL, "status": obs[k].Status, "tfdt": obs[k].Tfdt, "seq": obs[k].Seq, "source_index": obs[k].SrcIdx})
